@@ -2,6 +2,7 @@ import PermutaModel.Lemmas.C09Gen
 import PermutaModel.Lemmas.C09Std
 import PermutaModel.Lemmas.C09Notation
 import PermutaModel.Lemmas.C09Mesh
+import PermutaModel.Lemmas.C09Repr
 
 /-!
 # C09 — generation, ranking and notations are bijective and mutually consistent
@@ -656,5 +657,100 @@ theorem meshOfLength_patt (π : NSeq) : ∃ L, meshOfLength π.length (some π) 
     `length` makes the generator fail half-way (quirk mirrored by the model) -/
 example : meshOfLength 1 (some []) = .error .assertion ∧
     meshOfLength 0 (some [0]) = .ok [⟨[0], []⟩, ⟨[0], [(0, 0)]⟩] := by decide
+
+/-! ## A7  `eval(repr(x)) == x`: the `repr` texts are read back
+
+`Model.parseRepr` / `Model.parseMeshRepr` (`Model/C09Repr.lean`) model Python's `eval` on exactly the
+sub-grammar of expressions that `Perm.__repr__` / `MeshPatt.__repr__` write.  What stays trusted is that
+`eval` restricted to that sub-grammar *is* this parser (compared by the harness streams `repr-read`,
+`repr-malformed`). -/
+
+/-- **`eval(repr(p)) == p`** for every tuple of naturals `s` (all lengths — `()`, the one-element form
+    `(a,)`, longer ones —, numerals with any number of digits): the parser reads the text `repr` writes
+    back to `s`. -/
+theorem repr_roundtrip (s : NSeq) : parseRepr (Model.repr s) = some s := by
+  unfold parseRepr Model.repr
+  rw [String.toList_ofList]
+  exact parseReprChars_reprChars s
+
+example : parseRepr "Perm((10, 0, 203))" = some [10, 0, 203] ∧ parseRepr "Perm((7,))" = some [7] ∧
+    parseRepr "Perm(())" = some [] := by decide
+
+/-- … and the parser accepts **nothing else**: a text that is read as `s` is literally `repr(s)`
+    (no other whitespace, no redundant parentheses or trailing commas, no `Perm()`, no `00`).  Together with
+    `repr_roundtrip`: `parseRepr t = some s ↔ t = repr s`. -/
+theorem parseRepr_only_image (t : String) (s : NSeq) (h : parseRepr t = some s) : t = Model.repr s := by
+  unfold parseRepr at h
+  unfold Model.repr
+  rw [← parseReprChars_some _ _ h, String.ofList_toList]
+
+theorem parseRepr_iff (t : String) (s : NSeq) : parseRepr t = some s ↔ t = Model.repr s :=
+  ⟨parseRepr_only_image t s, fun h => h ▸ repr_roundtrip s⟩
+
+example : parseRepr "Perm((0,1))" = none ∧ parseRepr "Perm((0, 1,))" = none ∧ parseRepr "Perm((0))" = none ∧
+    parseRepr "Perm()" = none ∧ parseRepr "Perm((00,))" = none ∧ parseRepr "Perm((01, 0))" = none ∧
+    parseRepr "Perm((0, 1)) " = none ∧ parseRepr "Perm(((0, 1)))" = none ∧ parseRepr "Perm((,))" = none ∧
+    parseRepr "perm((0,))" = none ∧ parseRepr "" = none := by decide
+
+/-- **`eval(repr(m)) == m`** for mesh patterns: the text of `MeshPatt.__repr__` (which lists
+    `sorted(shading)`) is read back to the pattern and the sorted shading, for every pattern and every list of
+    cells.  `cellSort` is a rearrangement (`cellSort_mem`, `cellSort_length`), the identity on increasing lists. -/
+theorem mesh_repr_roundtrip (m : Mesh) : parseMeshRepr (meshRepr m) = some ⟨m.pattern, cellSort m.shading⟩ := by
+  unfold parseMeshRepr meshRepr meshReprChars
+  rw [String.toList_ofList]
+  exact parseMeshReprChars_raw m.pattern (cellSort m.shading)
+
+theorem cellSort_mem (c : Cell) (l : List Cell) : c ∈ cellSort l ↔ c ∈ l := mem_cellSort c l
+
+theorem cellSort_length (l : List Cell) : (cellSort l).length = l.length := length_cellSort l
+
+theorem cellSort_of_sorted (l : List Cell) (h : l.Pairwise (fun a b => cellLe' a b = true)) : cellSort l = l :=
+  cellSort_sorted l h
+
+example : meshRepr ⟨[0, 1], [(1, 2), (0, 0)]⟩ = "MeshPatt(Perm((0, 1)), [(0, 0), (1, 2)])" ∧
+    meshRepr ⟨[], []⟩ = "MeshPatt(Perm(()), [])" ∧
+    parseMeshRepr "MeshPatt(Perm((0, 1)), [(0, 0), (1, 2)])" = some ⟨[0, 1], [(0, 0), (1, 2)]⟩ := by decide
+
+/-- the constructor that `eval` runs on the text accepts it when the shading lies in the grid
+    (then the value is the mesh pattern itself, shading sorted) … -/
+theorem mesh_repr_eval_ok (m : Mesh) (h : InGrid m.pattern.length m.shading) :
+    evalMeshRepr (meshRepr m) = some (.ok ⟨m.pattern, cellSort m.shading⟩) := by
+  have hp := mesh_repr_roundtrip m
+  unfold parseMeshRepr at hp
+  unfold evalMeshRepr evalMeshReprChars
+  rw [hp]
+  simp only
+  rw [if_pos]
+  rw [List.all_eq_true]
+  intro c hc
+  have := h c ((mem_cellSort c _).mp hc)
+  simp [this.1, this.2]
+
+/-- … and fails its `assert` otherwise (such an object cannot be built in the first place) -/
+theorem mesh_repr_eval_assert (m : Mesh) (h : ¬ InGrid m.pattern.length m.shading) :
+    evalMeshRepr (meshRepr m) = some (.error .assertion) := by
+  have hp := mesh_repr_roundtrip m
+  unfold parseMeshRepr at hp
+  unfold evalMeshRepr evalMeshReprChars
+  rw [hp]
+  simp only
+  rw [if_neg]
+  intro hall
+  apply h
+  intro c hc
+  rw [List.all_eq_true] at hall
+  have := hall c ((mem_cellSort c _).mpr hc)
+  simpa using this
+
+example : evalMeshRepr "MeshPatt(Perm((0,)), [(0, 1)])" = some (.ok ⟨[0], [(0, 1)]⟩) ∧
+    evalMeshRepr "MeshPatt(Perm((0,)), [(0, 2)])" = some (.error .assertion) ∧
+    evalMeshRepr "MeshPatt(Perm((0,)), [(0, 1),])" = none := by decide
+
+/-- the mesh parser accepts only the canonical spelling: a text read as `m` is `MeshPatt(<repr of the
+    pattern>, <list display of the shading in the order read>)` literally -/
+theorem parseMeshRepr_only_image (t : String) (m : Mesh) (h : parseMeshRepr t = some m) :
+    t = String.ofList ("MeshPatt(".toList ++ reprChars m.pattern ++ ',' :: ' ' :: cellsReprChars m.shading ++ [')']) := by
+  unfold parseMeshRepr at h
+  rw [← parseMeshReprChars_some _ _ h, String.ofList_toList]
 
 end C09
